@@ -13,7 +13,9 @@ LEVEL_TEXT = ('Static membership-fact rules at the composition level: for the fo
 
 
 def run(ctx):
+    from ..volumes import rule_V2
     rule_M1(ctx)
+    rule_V2(ctx)      # leaf level: the ellipsoid sampler and contains() use inverse matrices
     rule_A4(ctx)
     rule_M2(ctx, 'NeuralBound.contains')
     rule_M2(ctx, 'NautilusBound.contains')
